@@ -169,6 +169,7 @@ enum {
   X(void, jv_wk_params_set_harray, (void* p, void* harray)) \
   X(void, jv_apair_set, (int view, void* arr, size_t i, const void* g1a, const void* g2a)) \
   X(void, jv_ppair_set, (int view, void* arr, size_t i, const void* g1a, const void* g2p)) \
+  X(void, jv_pair_get, (int view, const void* arr, size_t i, int prepared, const void** g1a, const void** g2)) \
   X(size_t, jv_pair_size, (int view, int prepared)) \
   X(size_t, jv_g2p_size, (int view)) \
   X(void, jv_pair_init, (int view, void* arr, size_t n, int prepared)) \
